@@ -211,6 +211,8 @@ def type_of(e):
         ii, (di, si) = type_of(idx)
         if not sa or si != () or di == "real":
             raise IllTyped("getitem")
+        if isinstance(di, int) and di != sa[0]:
+            raise IllTyped("getitem: index ranges over %s values but the indexed dim has size %s" % (di, sa[0]))
         return _merge(ia, ii), (da, sa[1:])
     if tag == "constant":
         _, cin, a = e
@@ -226,6 +228,8 @@ def type_of(e):
         ii, (di, si) = type_of(idx)
         if len(sa) <= off or si != () or di == "real":
             raise IllTyped("getitem_at")
+        if isinstance(di, int) and di != sa[off]:
+            raise IllTyped("getitem_at: index ranges over %s values but the indexed dim has size %s" % (di, sa[off]))
         return _merge(ia, ii), (da, tuple(sa[:off]) + tuple(sa[off + 1:]))
     if tag == "getslice":
         _, a, index = e
